@@ -3,7 +3,8 @@
 Unit: Statechart.add_state/remove_state/rename_state/move_state/add_transition/remove_transition/
 rotate_transition/validate and every public query, driven directly.  Solver-enumerated (finite domains;
 the solver is a generator here): start chart, a sequence of K editing operations and their arguments,
-valid and invalid alike (existing names, a fresh name, None, registered and unregistered transitions).
+valid and invalid alike (existing names, a fresh name, None, registered and unregistered transitions, among them
+transitions that differ from a registered one by their priority only).
 Oracle: an independent reference model of the documented effects; after each successful operation every
 public query agrees with the model, the soundness facts hold and validate() passes; after an operation
 that raises StatechartError or ValueError a snapshot of every public query equals the snapshot before;
